@@ -108,7 +108,7 @@ def run(ctx):
                         if not boolform.satisfiable(boolform.all_of(cond_, assume)):
                             continue
                         for e_ in seq_:
-                            m_ = re.match(r'^\(- (.+) \(- \$0 1\)\)$', e_[3])
+                            m_ = re.match(r'^\(sum (.+) 1 \| \$0\)$', e_[3]) or re.match(r'^\(sum 1 (.+) \| \$0\)$', e_[3])   # reset - (ticks - 1), linear form
                             resets.add(m_.group(1) if m_ and e_[2] == '=' else '%s %s' % (e_[2], e_[3]))
                     if resets != {want_h[0]}:
                         ctx.report(T1, fns['Skip'], fns['Skip']['body'], 'Skip ' + inst, 'Skip reloads from %s, Tick/GetMaxSkip use %s' % (sorted(resets), want_h[0]))
@@ -204,7 +204,12 @@ def run(ctx):
                         ctx.report(T4, fns[name], fns[name]['body'], '%s mirror' % name, 'a path changes counter without refreshing the MMIO mirror afterwards')
     u = fns['UpdateMMIO']
     ctx.inst(T4)
-    if render_stmt(u['body'], u) != '{(if (! f:Teakra::Timer::update_mmio) (return )) (= f:Teakra::Timer::counter_high (>> f:Teakra::Timer::counter 16)) (= f:Teakra::Timer::counter_low (& 65535 f:Teakra::Timer::counter))}':
+    from .. import summ as _summ, boolform as _bf
+    effu = _summ.summary(ctx, u, asserts='ignore').effect_conditions()
+    UM = _bf.A('f:Teakra::Timer::update_mmio')
+    wantu = {('write', 'f:Teakra::Timer::counter_high', '=', '(>> f:Teakra::Timer::counter 16)'),
+             ('write', 'f:Teakra::Timer::counter_low', '=', '(& 65535 f:Teakra::Timer::counter)')}
+    if set(effu) != wantu or any(_bf.equivalent(c_, UM) is not True for c_ in effu.values()):
         ctx.report(T4, u, u['body'], 'UpdateMMIO', 'mirror is not counter >> 16 / counter & 0xFFFF under update_mmio: ' + render_stmt(u['body'], u)[:200])
     ctx.sample({'case': 'pause=0 mode=AutoRestart counter==0', 'Tick': 'counter = start', 'GetMaxSkip': 'start', 'Skip': 'counter = start - (k-1)'})
     ctx.assumptions += ['the arithmetic of horizons and bulk updates over all 32-bit values and k is not decided (numerical)']
